@@ -17,8 +17,12 @@ package rules
 // access to the next receiver (Context holds no reference to it).
 //@ iface rules.EventRule.*
 //@   requires ctx != nil
-//@   modifies obj(ctx), memall(contextStackEntry), memall(byte), maps, alloc
+//@   modifies obj(ctx), memall(contextStackEntry), memall(byte), maps, alloc, lastRuleCall
 //@   may_panic
+// lastRuleCall: which handler of the EventRule interface was called last (set by the per-method
+// contracts in contracts_verif_c10.go; any other handler leaves it arbitrary). It lets the
+// marked-object states say "the parent state receives the same event the marker received".
+//@ ghost lastRuleCall uint64
 
 //@ func (*Context).NotifyNewObject
 //@   requires _this.config != nil
@@ -129,7 +133,7 @@ package rules
 // event was rejected) or exactly that call was (the panic came out of the next receiver).
 //@ macro PASS(r)
 //@   requires r.receiver != nil && r.context.config != nil && r.context.CurrentEntry.Rule != nil
-//@   modifies obj(r.context), memall(contextStackEntry), memall(byte), maps, alloc
+//@   modifies obj(r.context), memall(contextStackEntry), memall(byte), maps, alloc, lastRuleCall
 //@   may_panic
 
 //@ func (*RulesEventReceiver).OnBeginDocument
